@@ -5,6 +5,7 @@ import PV.Model.Labels
 import PV.Model.AllocCheck
 import PV.Model.Regions
 import PV.Model.Flatten
+import PV.Model.Front
 import PV.Model.Strip
 import PV.Model.Leaf
 import PV.Model.StripTy
@@ -614,7 +615,23 @@ def coreCompare (j : Json) : Except String Json := do
         match (a.zip b).zipIdx.find? (fun ((x, y), _) => x != y) with
         | some ((x, y), i) => pure (Json.mkObj ([("verdict", Json.str "differ"), ("line", Json.num (JsonNumber.fromNat i)), ("model", Json.str x), ("real", Json.str y),
             ("model_code", Json.arr (a.map Json.str).toArray), ("real_code", Json.arr (b.map Json.str).toArray)] ++ extra))
-        | none => pure (Json.mkObj ([("verdict", Json.str "same"), ("lines", Json.num (JsonNumber.fromNat a.length)), ("flatten", Json.str flat)] ++ extra))
+        | none =>
+          -- the proved front-end fragment: inside it, `PV.Front.flatten` must yield what `PV.Flatten.flatten` yields (then
+          -- `PV.Props.C01Front.source_to_chip_done` speaks about this program's real code)
+          let front : String := match PV.Front.flatten floatCfg prog with
+            | none => "outside"
+            | some s => if procs.isEmpty && PV.Flatten.canon (PV.Core.compProg (fun n => Float.ofNat n) s []) == a then "same" else "differ"
+          -- the hypotheses `PV.Front.SemOk` about the value domain, evaluated on this program's value pool
+          let vals : List Float := (match (j.getObjVal? "pool").bind poolOf with | .ok pool => pool.toList | _ => []) ++ [0.0, 1.0, -1.0, 2.5]
+          let sem := FloatSem.sem
+          let semok := vals.all (fun v => sem.alu "sub" [sem.ofNat 0, v] == floatCfg.negV v && sem.alu "move" [v] == v &&
+              (!floatCfg.isOne v || sem.truthy v) && sem.truthy v == sem.cond "nez" [v] &&
+              vals.all (fun w => sem.alu "select" [v, w, 7.0] == (if sem.truthy v then w else 7.0) && sem.alu "select" [v, 7.0, w] == (if sem.truthy v then 7.0 else w)) &&
+              vals.all (fun w => PV.Flatten.cmpNames.all (fun op => match PV.Flatten.branchPair op with
+                | some (c, _) => sem.truthy (sem.alu op [v, w]) == sem.cond c [v, w]
+                | none => false)))
+          pure (Json.mkObj ([("verdict", Json.str "same"), ("lines", Json.num (JsonNumber.fromNat a.length)), ("flatten", Json.str flat),
+            ("front", Json.str front), ("semok", Json.bool semok)] ++ extra))
 
 /-! ### C05: label removal at machine level -/
 
